@@ -184,6 +184,12 @@ Proof. exact reader_units_longhand_wf. Qed.
 Theorem C05_ast_expand_partial : forall fo braces a, units_ok fo a = true -> wf fo a = true ->
   read_cgsmiles fo (print braces a) = read_cgsmiles fo (print braces (expand a)).
 Proof. exact reader_units_expand_wf. Qed.
+(** in the check's own terms: [ReaderCheck.class_C05] puts an AST into no class when [units_test] holds (the side
+    condition evaluated with the oracle "no float"); for every oracle under which the AST is well formed this is the
+    hypothesis of the theorem above ([units_ok_oracle]: the side condition depends on the oracle only through the names) *)
+Theorem C05_check_class_sound : forall fo braces a, wf fo a = true -> units_test a = true ->
+  read_cgsmiles fo (print braces a) = read_cgsmiles fo (print braces (expand a)).
+Proof. exact reader_units_test_sound. Qed.
 (** the flat level behind it: multiplied branches followed by closings, items that close several branches *)
 Theorem C05_branch_flat_closings : forall fo l, g2segs_ok fo l = true ->
   read_cgsmiles fo ("{"%char :: g2segs_str l ++ ["}"%char]) = denote_g2 fo l.
@@ -245,6 +251,7 @@ Print Assumptions C05_branch_partial_gen.
 Print Assumptions C05_branch_ast_partial.
 Print Assumptions C05_branch_ast_longhand_partial.
 Print Assumptions C05_ast_expand_partial.
+Print Assumptions C05_check_class_sound.
 Print Assumptions C05_branch_flat_closings.
 Print Assumptions C05_branch_partial_gen_expanded.
 Print Assumptions C05_nodes_partial.
